@@ -2,7 +2,9 @@
 import io
 import itertools
 
-from cutplace import rowio, validio
+import os
+
+from cutplace import interface, rowio, validio
 
 import vcommon as V
 from common import B, L, Nat, O, P, S
@@ -210,7 +212,59 @@ def coq_outcome(o):
     return P(L(o["outs"], V.coq_out), O(o["raised"], V.coq_err), L(o["writes"], lambda e: O(e, V.coq_err)), L(o["emitted"], lambda r: L(r, S)))
 
 
+def ods_file(path, sheets):
+    """an ODS document with the given sheets (lists of rows of plain text cells)"""
+    import props.c15 as c15
+    def cell(v):
+        return {"rep": None, "paras": [[("t", v)]] if v else []}
+    tables = [[{"rep": None, "cells": [cell(v) for v in row]} for row in sheet] for sheet in sheets]
+    c15.write_ods(path, c15.xml_doc(tables, "UTF-8").encode("utf-8"))
+
+
+def container_run(cid, path):
+    """a Reader on a spreadsheet document, used without `with`: the rows, the error that ended reading, and what
+    close() - called by hand, also after a failed pass - says"""
+    res = {"outs": [], "raised": None, "closed": None}
+    reader = validio.Reader(cid, path, on_error="yield")
+    try:
+        for r in reader.rows():
+            res["outs"].append(type(r).__name__ if isinstance(r, Exception) else list(r))
+    except Exception as e:  # noqa
+        res["raised"] = type(e).__name__
+    try:
+        reader.close()
+    except Exception as e:  # noqa
+        res["closed"] = type(e).__name__
+    return res
+
+
+def container_history(inp):
+    """histories over spreadsheet documents of which some cannot be read (the sheet the CID names is missing)"""
+    import common as C
+    tmp = os.path.join(C.BUILD, "C08", "tmp")
+    os.makedirs(tmp, exist_ok=True)
+    rows = [["D", "Format", inp["fmt"]], ["D", "Sheet", "2"], ["F", "k"], ["F", "v"], ["C", "enough", "DistinctCount", "k >= 2"], ["C", "once", "IsUnique", "k"]]
+    def cid():
+        c = interface.Cid()
+        c.read("<c08>", [list(r) for r in rows])
+        return c
+    paths = []
+    for i, sheets in enumerate(inp["files"]):
+        p = os.path.join(tmp, "h%d_%d.ods" % (os.getpid(), i))
+        ods_file(p, sheets)
+        paths.append(p)
+    shared = cid()
+    got = [container_run(shared, p) for p in paths]
+    fresh = [container_run(cid(), p) for p in paths]
+    for p in paths:
+        os.remove(p)
+    return got, fresh
+
+
 def make_case(inp):
+    if inp.get("kind") == "container":
+        got, fresh = container_history(inp)
+        return {"coq": P(P(V.coq_cid(SPEC), "[]"), "[]"), "obs": {"got": got, "fresh": fresh}, "nontrivial": True, "tags": ["container-history", inp["fmt"]]}
     spec, history = inp["spec"], inp["history"]
     cid = V.build_cid(spec)
     pres = [prepare(cid, spec, op) if inp.get("pre") and not op.get("same_reader") else None for op in history]
@@ -242,6 +296,11 @@ def plain(o):
 
 
 def direct_oracle(inp, obs):
+    if inp.get("kind") == "container":
+        for i, (a, b) in enumerate(zip(obs["got"], obs["fresh"])):
+            if a != b:
+                return "spreadsheet run %d after this history: %r; on a fresh CID: %r" % (i, a, b)
+        return None
     spec = inp["spec"]
     for i, (op, oc) in enumerate(zip(inp["history"], obs)):
         fresh = do_op(V.build_cid(spec), spec, op)
@@ -263,6 +322,13 @@ def gen_inputs(tier, rnd):
             for second in LIMITED:
                 yield {"spec": spec, "history": [first, second]}
                 yield {"spec": spec, "history": [first, second, first]}
+    # spreadsheet documents, some of which cannot be read (the CID names sheet 2): a failed pass is a run like any other
+    two = [[["x", "1"]], [["a", "1"], ["b", "2"]]]
+    one = [[["a", "1"], ["b", "2"]]]
+    dup = [[["x", "1"]], [["a", "1"], ["a", "2"], ["b", "3"]]]
+    few = [[["x", "1"]], [["a", "1"]]]
+    for files in ([two, one], [two, one, two], [one, two], [dup, one, few], [few, one, one, two], [two, few, one]):
+        yield {"kind": "container", "fmt": "ods", "files": files}
     # one Reader reading its data several times (header x limit x mode): every pass is a run like the first
     for spec in (SPEC, SPEC_H, dict(SPEC, header=2), SPEC_GE):
         for limit in (None, 0, 1, 2, 3, 4, 5, 6):
